@@ -1810,7 +1810,16 @@ class CryptContext:
         """
         precalculated hash for dummy_verify() to use
         """
-        return self.hash(self._dummy_secret)
+        return self.hash(self._dummy_secret, **self._dummy_context)
+
+    @property
+    def _dummy_context(self):
+        """
+        placeholder values for context keywords the default scheme may require
+        (e.g. ``user`` for postgres_md5), so the dummy hash can be calculated at all.
+        """
+        context_kwds = self.context_kwds
+        return dict((key, "dummy") for key in ("user", "realm") if key in context_kwds)
 
     def _reset_dummy_verify(self):
         """
@@ -1828,7 +1837,7 @@ class CryptContext:
 
         .. versionadded:: 1.7
         """
-        self.verify(self._dummy_secret, self._dummy_hash)
+        self.verify(self._dummy_secret, self._dummy_hash, **self._dummy_context)
         return False
 
     def is_enabled(self, hash):
